@@ -33,6 +33,7 @@ LOCKCLS = lambda c: c.endswith('scoped_lock')   # noqa: E731
 
 
 def run(facts, rep):
+    d5_handler_task_picked_up(facts, rep)
     d1_batch_flags_only_raised(facts, rep)
     d1_handlers(facts, rep)
     d2_serial(facts, rep)
@@ -709,3 +710,48 @@ def d4_edge_removal_notifies_once(facts, rep):
                key_extra='rm-once|%s' % fn.p)
     if n < 3:
         raise AnalysisBroken('senders of continue_msg are not instantiated by the driver (%d remove_successor instances)' % n)
+
+
+def d5_handler_task_picked_up(facts, rep):
+    """The thread that handles an aggregator batch runs the operations of every thread in the batch and attaches the forwarding
+    task it creates to ITS OWN operation record (`tmp->ltask`), whatever kind that operation is (a rem_succ as well).  The task
+    holds a graph wait reference and is the only way the buffered items get forwarded (forwarder_busy stays set).  So every
+    function that submits an operation to the aggregator looks at the operation's ltask afterwards, on every path: it passes the
+    record to enqueue_forwarding_task / grab_forwarding_task or reads op.ltask itself.  Sibling agreement over all submitters
+    of buffer_node (queue / priority_queue / sequencer inherit them)."""
+    n = 0
+    seen = set()
+    for fn in facts.fns.values():
+        if not (fn.cls or '').startswith(D2 + 'buffer_node'):
+            continue
+        ex = [c for c in calls_named(fn, ('execute',)) if last_member(fn, c[2].get('obj', -1)) == 'my_aggregator' and c[2].get('a')]
+        for pos, sx, node, d in ex:
+            an = fn.n(fn.strip(node['a'][0]))
+            if an.get('k') == 'unop' and an.get('op') == '&':
+                an = fn.n(fn.strip(an['sub']))
+            vid = an.get('v') if an.get('k') == 'var' else None
+            if vid is None:
+                continue
+
+            def picks(p_, e_, vid=vid):
+                if not isinstance(e_, int):
+                    return False
+                nd = fn.nodes[e_]
+                if nd.get('k') == 'call' and (fn.callee(e_) or {}).get('n') in ('enqueue_forwarding_task', 'grab_forwarding_task'):
+                    return any(fn.nodes[x].get('k') == 'var' and fn.nodes[x].get('v') == vid for a in nd.get('a', []) for x in fn.subtree(a))
+                for x in fn.subtree(e_):
+                    xn = fn.nodes[x]
+                    if xn.get('k') == 'member' and xn.get('n') == 'ltask':
+                        r = fn.n(root_of(fn, x))
+                        if r.get('k') == 'var' and r.get('v') == vid:
+                            return True
+                return False
+            ok, wit = every_path_passes(fn, pos, picks)
+            n += 1
+            rep.ob('D5', 'K7', fn, '%s picks up the task the batch handler may have attached to its operation' % fn.p.split('::')[-1], ok,
+                   'after my_aggregator.execute(&op) the operation\'s ltask is ignored on some path: when this thread was the handler of a '
+                   'batch in which another thread\'s put / release requested forwarding, the forwarding task is dropped - the item stays '
+                   'buffered, forwarder_busy stays set, the task\'s wait reference is never released (wait_for_all hangs): ' + wit,
+                   ln=node['ln'], key_extra='ltask|%s' % fn.p)
+    if n < 6:
+        raise AnalysisBroken('buffer_node: submitters of aggregator operations: %d found, at least 6 expected' % n)
